@@ -28,6 +28,20 @@
  *        concrete documents: they show that the contracts compose on the code that runs. */
 #include "verif.h"
 #include "config.h"
+#ifdef U_SETLOOPS
+/* ghosts named by the loop contracts of contracts/api.loops.json (spliced into lowered.c, hence declared before it) */
+struct ResourceManager;
+struct VariantData;
+static unsigned long g_N;          /* length of the source (any) */
+static unsigned long g_it_pos;     /* position of the abstract source iterator */
+static unsigned long g_adds;       /* elements added / members created so far */
+static unsigned long g_copies;     /* values copied so far */
+static _Bool g_step_failed;        /* an add / member creation / copy reported failure */
+static _Bool g_order_ok;           /* every step so far received the element of its own position */
+static _Bool g_ovf0;               /* overflowed() when set() was called */
+static struct ResourceManager *g_rmp;
+static struct VariantData *g_last_member;
+#endif
 #ifdef VERIF_NATIVE
 #include "lowered_types.h"
 #else
@@ -87,11 +101,11 @@ static uint64_t f64_bits(double f) { uint64_t b; memcpy(&b, &f, 8); return b; }
 
 /* =============================================================================================================================
  * ghost call log shared by the modular units */
-#if defined(U_REF) || defined(U_CONST) || defined(U_ARRAY) || defined(U_OBJECT)
+#if defined(U_REF) || defined(U_CONST) || defined(U_ARRAY) || defined(U_OBJECT) || defined(U_STRKIND) || defined(U_DOC)
 enum { K_NONE, K_asIntegral, K_isInteger, K_asFloat, K_asBoolean, K_asString, K_size, K_nesting, K_getElement, K_getMember,
        K_clear, K_setInteger, K_setFloat, K_setBoolean, K_setString, K_setRawString, K_copyVariant, K_arraySet, K_objectSet,
        K_addElement, K_addValue, K_getOrAddElement, K_getOrAddMember, K_removeElement, K_removeMember, K_collClear, K_collSize,
-       K_collNesting, K_removeOne, K_removePair, K_arrayAddElement, K_arrayRemoveElement, K_objRemoveMember, K_iterate };
+       K_collNesting, K_removeOne, K_removePair, K_arrayAddElement, K_arrayRemoveElement, K_objRemoveMember, K_iterate, K_docClear };
 /* instantiation type: the T of asIntegral<T> / setInteger<T> ..., the adapter of setString / the lookups, the T of addValue<T> */
 enum { TY_none, TY_signedchar, TY_uchar, TY_short, TY_ushort, TY_int, TY_uint, TY_long, TY_ulong, TY_llong, TY_ullong, TY_float, TY_double, TY_bool,
        TY_static /* StaticStringAdapter: const char* (kept by address) */, TY_zt /* ZeroTerminatedRamString: char* (copied) */,
@@ -809,6 +823,105 @@ void h_ref_collection_ops(void) {
 #endif /* U_REF */
 
 /* =============================================================================================================================
+ * unit api_doc (modular, class U): JsonDocument's own thin accessors -- as<T>() / is<T>() (through getVariant()), isNull, size,
+ * nesting, overflowed, add<JsonVariant>(), add(v), remove(index), remove(key), the const operator[] (key / index), the conversions
+ * to JsonVariant / JsonVariantConst -- each called through a one-line function of tu/api.cpp (api::dq_*), against the contracts of
+ * the VariantData routines.  (set / to / clear / copy / move / swap of documents: family facade.) */
+#ifdef U_DOC
+static struct JsonDocument g_doc;
+static char g_text[3] = {'h', 'i', 0};
+int VariantData__asIntegral_int(VD *self, RM *resources) { int v = (int)in_u32(); log_call(K_asIntegral, TY_int, self, resources, 0, 0, 0); g_ret = (uint64_t)v; return v; }                 /* [numvariant/as_is_int_per_kind] */
+_Bool VariantData__isInteger_int(VD *self, RM *resources) { _Bool v = in_bool(); log_call(K_isInteger, TY_int, self, resources, 0, 0, 0); g_ret = v; return v; }
+float VariantData__asFloat_float(VD *self, RM *resources) { float v = in_f32(); log_call(K_asFloat, TY_float, self, resources, 0, 0, 0); g_ret = f32_bits(v); return v; }                         /* [numvariant/asFloat_of_*] */
+static struct JsonString g_ret_str;
+struct JsonString VariantData__asString(VD *self) { struct JsonString s; s.data_ = (char *)(uintptr_t)in_u64(); s.size_ = in_u64(); s.ownership_ = in_u8() & 1; log_call(K_asString, TY_none, self, 0, 0, 0, 0); g_ret_str = s; return s; }
+unsigned long VariantData__size__ResourceManager_p(VD *self, RM *resources) { unsigned long v = in_u64(); log_call(K_size, TY_none, self, resources, 0, 0, 0); g_ret = v; return v; }                /* [coll_dispatch/dispatch] */
+unsigned long VariantData__nesting__ResourceManager_p(VD *self, RM *resources) { unsigned long v = in_u64(); log_call(K_nesting, TY_none, self, resources, 0, 0, 0); g_ret = v; return v; }
+static VD g_found;
+VD *VariantData__addElement__ResourceManager_p(VD *self, RM *resources) { log_call(K_addElement, TY_none, self, resources, 0, 0, 0); g_ret_p = 0; if (in_bool()) { core_alloc_failure(resources); return 0; } g_ret_p = &g_found; return &g_found; }
+_Bool ArrayData__addValue_constint_r__int_r_ResourceManager_p(struct ArrayData *self, int *value, RM *resources) { log_call(K_addValue, TY_int, self, resources, (uint64_t)*value, 0, 0); if (in_bool()) { core_alloc_failure(resources); g_ret = 0; return 0; } g_ret = 1; return 1; }  /* [api_addvalue/addvalue_int] */
+_Bool ArrayData__addValue_constchar_p_r__char_p_r_ResourceManager_p(struct ArrayData *self, char **value, RM *resources) { log_call(K_addValue, TY_cstr, self, resources, 0, *value, 0); if (in_bool()) { core_alloc_failure(resources); g_ret = 0; return 0; } g_ret = 1; return 1; }
+VD *VariantData__getMember_StaticStringAdapter__StaticStringAdapter_ResourceManager_p(VD *self, struct StaticStringAdapter key, RM *resources) { log_call(K_getMember, TY_static, self, resources, 0, key._b_ZeroTerminatedRamString.str_, 0); g_ret_p = in_bool() ? &g_found : (VD *)0; return (VD *)g_ret_p; }
+VD *VariantData__getElement__ulong_ResourceManager_p(VD *self, unsigned long index, RM *resources) { log_call(K_getElement, TY_none, self, resources, index, 0, 0); g_ret_p = in_bool() ? &g_found : (VD *)0; return (VD *)g_ret_p; }
+void VariantData__removeElement__VariantData_p_ulong_ResourceManager_p(VD *var, unsigned long index, RM *resources) { log_call(K_removeElement, TY_none, var, resources, index, 0, 0); }
+void VariantData__removeMember_StaticStringAdapter__VariantData_p_StaticStringAdapter_ResourceManager_p(VD *var, struct StaticStringAdapter key, RM *resources) { log_call(K_removeMember, TY_static, var, resources, 0, key._b_ZeroTerminatedRamString.str_, 0); }
+static VD g_root0; static _Bool g_ovf0;
+static void doc_scene(void) {
+  log_reset();
+  vd_havoc(&g_doc.data_); vd_havoc(&g_found);
+  g_doc.resources_.overflowed_ = in_bool();
+  g_root0 = g_doc.data_; g_ovf0 = g_doc.resources_.overflowed_;
+}
+void h_doc_reads(void) {
+  doc_scene();
+  VD *D = &g_doc.data_; RM *R = &g_doc.resources_;
+  unsigned t = D->type_;
+  unsigned sel = in_u8();
+  __CPROVER_assume(sel < 16);
+  unsigned long idx = in_u64();
+  _Bool ok = 1, log_ok = 1;
+  unsigned n_exp = 0;
+  switch (sel) {
+    case 0: { int r = api__dq_as_int(&g_doc); n_exp = 1; log_ok = log_is(0, K_asIntegral, TY_int, D, R, 0, 0, 0); ok = (uint64_t)r == g_ret; } break;
+    case 1: { float r = api__dq_as_float(&g_doc); n_exp = 1; log_ok = log_is(0, K_asFloat, TY_float, D, R, 0, 0, 0); ok = f32_bits(r) == g_ret; } break;
+    case 2: { char *r = api__dq_as_cstr(&g_doc); n_exp = 1; log_ok = log_is(0, K_asString, TY_none, D, 0, 0, 0, 0); ok = r == g_ret_str.data_; } break;
+    case 3: { struct JsonArray r = api__dq_as_array(&g_doc); ok = r.resources_ == R && r.data_ == (t == VT_ARRAY ? &D->content_.asArray : (struct ArrayData *)0); } break;
+    case 4: { struct JsonObjectConst r = api__dq_as_objectconst(&g_doc); ok = r.resources_ == R && r.data_ == (t == VT_OBJECT ? &D->content_.asObject : (struct ObjectData *)0); } break;
+    case 5: { struct JsonVariantConst r = api__dq_as_variantconst(&g_doc); ok = r.resources_ == R && r.data_ == D; } break;
+    case 6: { _Bool r = api__dq_is_int(&g_doc); n_exp = 1; log_ok = log_is(0, K_isInteger, TY_int, D, R, 0, 0, 0); ok = r == (_Bool)g_ret; } break;
+    case 7: ok = api__dq_is_array(&g_doc) == (t == VT_ARRAY); break;
+    case 8: ok = api__dq_isNull(&g_doc) == (t == VT_NULL); break;
+    case 9: { unsigned long r = api__dq_size(&g_doc); n_exp = 1; log_ok = log_is(0, K_size, TY_none, D, R, 0, 0, 0); ok = r == g_ret; } break;
+    case 10: { unsigned long r = api__dq_nesting(&g_doc); n_exp = 1; log_ok = log_is(0, K_nesting, TY_none, D, R, 0, 0, 0); ok = r == g_ret; } break;
+    case 11: ok = api__dq_overflowed(&g_doc) == g_ovf0; break;
+    case 12: { struct JsonVariantConst r = api__dq_get_key(&g_doc, g_text); n_exp = 1; log_ok = log_is(0, K_getMember, TY_static, D, R, 0, g_text, 0); ok = r.resources_ == R && r.data_ == (VD *)g_ret_p; } break;
+    case 13: { struct JsonVariantConst r = api__dq_get_index(&g_doc, idx); n_exp = 1; log_ok = log_is(0, K_getElement, TY_none, D, R, idx, 0, 0); ok = r.resources_ == R && r.data_ == (VD *)g_ret_p; } break;
+    case 14: { struct JsonVariant r = api__dq_to_variant(&g_doc); ok = r.resources_ == R && r.data_ == D; } break;
+    default: { struct JsonVariantConst r = api__dq_to_variantconst(&g_doc); ok = r.resources_ == R && r.data_ == D; } break;
+  }
+  COVER(sel == 0); COVER(sel == 3 && t == VT_ARRAY); COVER(sel == 4 && t == VT_INT32); COVER(sel == 8 && t == VT_NULL); COVER(sel == 11 && g_ovf0); COVER(sel == 12 && g_ret_p != 0); COVER(sel == 13 && g_ret_p == 0); COVER(sel == 15);
+#ifdef CANARY_DOC_READS
+  CHECK(g_n == n_exp && log_ok && sel != 9, "C13/C04/C06: a read-only accessor of the document asks the matching read-only core routine about the ROOT with the document's manager (exactly T for as<T>() / is<T>()), once, and calls nothing else");
+#else
+  CHECK(g_n == n_exp && log_ok, "C13/C04/C06: a read-only accessor of the document asks the matching read-only core routine about the ROOT with the document's manager (exactly T for as<T>() / is<T>()), once, and calls nothing else");
+#endif
+  CHECK(ok, "C04: the answer is the core's, unchanged; handles designate the root and the document's manager");
+  CHECK(vd_same(&g_doc.data_, &g_root0) && g_doc.resources_.overflowed_ == g_ovf0 && !g_fail_now, "C04/C06: read-only operations change nothing");
+}
+void h_doc_collection_ops(void) {
+  doc_scene();
+  VD *D = &g_doc.data_; RM *R = &g_doc.resources_;
+  unsigned t0 = D->type_;
+  unsigned sel = in_u8();
+  __CPROVER_assume(sel < 5);
+  unsigned long idx = in_u64();
+  int iv = (int)in_u32();
+  _Bool ok = 1, log_ok = 1;
+  unsigned n_exp = 0;
+  _Bool can_add = t0 == VT_NULL || t0 == VT_ARRAY;
+  switch (sel) {
+    case 0: { struct JsonVariant r = api__dq_add_variant(&g_doc); n_exp = 1; log_ok = log_is(0, K_addElement, TY_none, D, R, 0, 0, 0); ok = r.resources_ == R && r.data_ == (VD *)g_ret_p; } break;
+    case 1: { _Bool r = api__dq_add_int(&g_doc, iv); n_exp = can_add; log_ok = !can_add || log_is(0, K_addValue, TY_int, &D->content_.asArray, R, (uint64_t)iv, 0, 0); ok = r == (can_add ? (_Bool)g_ret : 0); } break;
+    case 2: { _Bool r = api__dq_add_cstr(&g_doc, g_text); n_exp = can_add; log_ok = !can_add || log_is(0, K_addValue, TY_cstr, &D->content_.asArray, R, 0, g_text, 0); ok = r == (can_add ? (_Bool)g_ret : 0); } break;
+    case 3: { api__dq_remove_index(&g_doc, idx); n_exp = 1; log_ok = log_is(0, K_removeElement, TY_none, D, R, idx, 0, 0); } break;
+    default: { api__dq_remove_key(&g_doc, g_text); n_exp = 1; log_ok = log_is(0, K_removeMember, TY_static, D, R, 0, g_text, 0); } break;
+  }
+  COVER(sel == 0 && g_ret_p != 0); COVER(sel == 1 && t0 == VT_NULL && ok); COVER(sel == 1 && t0 == VT_OBJECT); COVER(sel == 2 && can_add && g_fail_now); COVER(sel == 3); COVER(sel == 4);
+#ifdef CANARY_DOC_COLL
+  CHECK(g_n == n_exp && log_ok && sel != 3, "C04: add() / remove() hand the root, the document's manager and the argument, unchanged, to the matching core routine, once, and call nothing else");
+#else
+  CHECK(g_n == n_exp && log_ok, "C04: add() / remove() hand the root, the document's manager and the argument, unchanged, to the matching core routine, once, and call nothing else");
+#endif
+  CHECK(ok, "C05/C04: add<JsonVariant>() returns a handle to the new element (unbound on failure), add(v) the core's report (false for a root that is neither null nor an array)");
+  if ((sel == 1 || sel == 2)) {
+    if (t0 == VT_NULL) CHECK(D->type_ == VT_ARRAY && D->content_.asCollection.head_ == NSLOT && D->content_.asCollection.tail_ == NSLOT, "C04: add(v) on a null document first makes it an empty array");
+    else CHECK(vd_same(D, &g_root0), "C04: add(v) on a root of another kind leaves it alone; on an array the wrapper itself writes nothing");
+  }
+  if (sel >= 3) CHECK(vd_same(D, &g_root0), "C04: remove() writes nothing itself");
+}
+#endif /* U_DOC */
+
+/* =============================================================================================================================
  * small slot store shared by the collection-level units: NS harness-owned slots whose ids are base..base+NS-1 for an arbitrary
  * symbolic base (slot ids are HANDLES: the code only compares them with NULL_SLOT and passes them to getVariant) */
 #if defined(U_ARRAY) || defined(U_OBJECT) || defined(U_ADDVALUE)
@@ -1138,6 +1251,120 @@ void h_array_const_ops(void) {
   CHECK(vd_same(&g_dst, &dst0) && store_unchanged_except(0) && !g_fail_now && g_rm.overflowed_ == ovf0, "C04/C06: read-only entry points change nothing");
 }
 #endif /* U_ARRAY */
+
+/* =============================================================================================================================
+ * unit api_set_loops (modular, class U: sources of ANY length): JsonArray::set(JsonArrayConst) and JsonObject::set(JsonObjectConst)
+ * with their range-for loops closed by loop contracts (contracts/api.loops.json).  The source is an ABSTRACT sequence: the
+ * iterator stubs (begin / end / != / ++ / *) walk positions 0..N-1 of a sequence of N elements, N any value; element k is the
+ * handle ELEM(k), key k the string KEY(k) [the real iterators are thin wrappers over CollectionData::createIterator /
+ * CollectionIterator::next / VariantData::asString: coll_core/createIterator, iterator_next, walk_le4; the same loops run with the
+ * REAL iterators over lists of <= 3 elements in api_array/array_set_le3 and api_object/object_set_le2].
+ * Decides: "destination cleared first, elements copied in order, each exactly once, false on the first failure". */
+#ifdef U_SETLOOPS
+static RM g_rm;
+static VD g_dst;
+static RM g_src_rm;
+static _Bool g_cleared;
+#define ELEM(k) ((VD *)(uintptr_t)(0x10000000ull + 16ull * (k)))
+#define KEYP(k) ((char *)(uintptr_t)(0x7000000000ull + 8ull * (k)))
+#define KEYSIZE(k) ((unsigned long)((k) * 3 + 1))
+void CollectionData__clear__ResourceManager_p(struct CollectionData *self, RM *resources) {
+  CHECK(self == &g_dst.content_.asCollection && resources == &g_rm, "C04: what is cleared is the destination, with its own manager");
+  CHECK(g_adds == 0 && g_it_pos == 0, "C04: the destination is cleared BEFORE anything is added");
+  g_cleared = 1;
+  self->head_ = NSLOT; self->tail_ = NSLOT;
+}
+/* ---- abstract iterators ------------------------------------------------------------------------------------------------------ */
+struct JsonArrayConstIterator JsonArrayConst__begin(struct JsonArrayConst *self) { struct JsonArrayConstIterator it; it.iterator_.slot_ = 0; it.iterator_.currentId_ = NSLOT; it.iterator_.nextId_ = NSLOT; it.resources_ = self->resources_; g_it_pos = 0; return it; }
+struct JsonArrayConstIterator JsonArrayConst__end(struct JsonArrayConst *self) { struct JsonArrayConstIterator it; it.iterator_.slot_ = 0; it.iterator_.currentId_ = NSLOT; it.iterator_.nextId_ = NSLOT; it.resources_ = 0; return it; }
+_Bool JsonArrayConstIterator__op_ne(struct JsonArrayConstIterator *self, struct JsonArrayConstIterator *other) { return g_it_pos < g_N; }
+struct JsonArrayConstIterator *JsonArrayConstIterator__op_inc(struct JsonArrayConstIterator *self) { g_it_pos++; return self; }
+struct JsonVariantConst JsonArrayConstIterator__op_star(struct JsonArrayConstIterator *self) { struct JsonVariantConst v; v.data_ = ELEM(g_it_pos); v.resources_ = &g_src_rm; return v; }
+struct JsonObjectConstIterator JsonObjectConst__begin(struct JsonObjectConst *self) { struct JsonObjectConstIterator it; it.iterator_.slot_ = 0; it.iterator_.currentId_ = NSLOT; it.iterator_.nextId_ = NSLOT; it.resources_ = self->resources_; g_it_pos = 0; return it; }
+struct JsonObjectConstIterator JsonObjectConst__end(struct JsonObjectConst *self) { struct JsonObjectConstIterator it; it.iterator_.slot_ = 0; it.iterator_.currentId_ = NSLOT; it.iterator_.nextId_ = NSLOT; it.resources_ = 0; return it; }
+_Bool JsonObjectConstIterator__op_ne(struct JsonObjectConstIterator *self, struct JsonObjectConstIterator *other) { return g_it_pos < g_N; }
+struct JsonObjectConstIterator *JsonObjectConstIterator__op_inc(struct JsonObjectConstIterator *self) { g_it_pos++; return self; }
+struct JsonPairConst JsonObjectConstIterator__op_star(struct JsonObjectConstIterator *self) {
+  struct JsonPairConst p;
+  p.key_.data_ = KEYP(g_it_pos); p.key_.size_ = KEYSIZE(g_it_pos); p.key_.ownership_ = (unsigned)(g_it_pos & 1);
+  p.value_.data_ = ELEM(g_it_pos); p.value_.resources_ = &g_src_rm;
+  return p;
+}
+/* ---- the per-element core routines ------------------------------------------------------------------------------------------- */
+_Bool ArrayData__addValue_constJsonVariantConst_r__JsonVariantConst_r_ResourceManager_p(struct ArrayData *self, struct JsonVariantConst *value, RM *resources) {
+  CHECK(g_cleared, "C04: the destination is cleared BEFORE anything is added");
+  if (!(self == &g_dst.content_.asArray && resources == &g_rm && value->data_ == ELEM(g_adds) && value->resources_ == &g_src_rm && g_adds == g_it_pos)) g_order_ok = 0;
+#ifdef CANARY_ARRAY_SET_U
+  CHECK(g_order_ok && g_adds != 5, "C04: the k-th add() on the destination receives the k-th element of the source (source order, each element exactly once)");
+#else
+  CHECK(g_order_ok, "C04: the k-th add() on the destination receives the k-th element of the source (source order, each element exactly once)");
+#endif
+  g_adds++;
+  if (in_bool()) { g_step_failed = 1; resources->overflowed_ = 1; return 0; }
+  return 1;
+}
+static VD g_member_slot;
+VD *VariantData__getOrAddMember_JsonStringAdapter(VD *self, struct JsonStringAdapter key, RM *resources) {
+  CHECK(g_cleared, "C04: the destination is cleared BEFORE anything is added");
+  if (!(self == &g_dst && resources == &g_rm && key._b_SizedRamString.str_ == KEYP(g_adds) && key._b_SizedRamString.size_ == KEYSIZE(g_adds) && key.linked_ == (_Bool)(g_adds & 1) && g_adds == g_it_pos && g_copies == g_adds)) g_order_ok = 0;
+#ifdef CANARY_OBJECT_SET_U
+  CHECK(g_order_ok && g_adds != 4, "C04: the k-th member created in the destination has the k-th key of the source (same bytes, size, ownership; source order, each exactly once)");
+#else
+  CHECK(g_order_ok, "C04: the k-th member created in the destination has the k-th key of the source (same bytes, size, ownership; source order, each exactly once)");
+#endif
+  g_adds++;
+  if (in_bool()) { g_step_failed = 1; resources->overflowed_ = 1; g_last_member = 0; return 0; }
+  g_last_member = &g_member_slot;
+  return &g_member_slot;
+}
+_Bool copyVariant(struct JsonVariant dst, struct JsonVariantConst src) {
+  if (!(dst.data_ == g_last_member && dst.resources_ == &g_rm && src.data_ == ELEM(g_copies) && src.resources_ == &g_src_rm && g_copies + 1 == g_adds && g_copies == g_it_pos)) g_order_ok = 0;
+  CHECK(g_order_ok, "C04: the k-th member receives a copy of the k-th value of the source");
+  g_copies++;
+  if (!dst.data_) return 0;
+  if (in_bool()) { g_step_failed = 1; dst.resources_->overflowed_ = 1; return 0; }
+  return 1;
+}
+static void setloops_scene(void) {
+  g_N = in_u64(); g_it_pos = 0; g_adds = 0; g_copies = 0; g_step_failed = 0; g_order_ok = 1; g_cleared = 0; g_last_member = 0;
+  g_rmp = &g_rm;
+  g_rm.overflowed_ = in_bool();
+  g_ovf0 = g_rm.overflowed_;
+  vd_havoc(&g_dst);
+}
+void h_array_set_anylen(void) {
+  setloops_scene();
+  g_dst.type_ = VT_ARRAY;
+  _Bool bound = in_bool(), src_bound = in_bool();
+  struct JsonArray a; a.data_ = bound ? &g_dst.content_.asArray : (struct ArrayData *)0; a.resources_ = &g_rm;
+  struct JsonArrayConst src; src.data_ = src_bound ? (struct ArrayData *)ELEM(1000000) : (struct ArrayData *)0; src.resources_ = &g_src_rm;
+  if (!src_bound) g_N = 0; /* an unbound source has no elements */
+  _Bool r = JsonArray__set(&a, src);
+  COVER(bound && r && g_N > 100000); COVER(bound && !r && g_adds == 3); COVER(!bound); COVER(bound && r && g_N == 0);
+  if (!bound) { CHECK(!r && !g_cleared && g_adds == 0, "C04: set() on an unbound array does nothing and returns false"); return; }
+  CHECK(g_cleared, "C04: set(src) clears the destination first (an assignment, not an append)");
+  CHECK(g_order_ok, "C04: the elements are added in the source's order, each exactly once");
+  CHECK(r == !g_step_failed, "C05: set() returns false exactly when an add failed");
+  if (r) CHECK(g_adds == g_N && g_it_pos == g_N, "C04: on success EVERY element of the source was added (sources of any length)");
+  else CHECK(g_adds == g_it_pos + 1 && g_adds <= g_N, "C05: set() stops at the first failure: nothing is attempted after it");
+}
+void h_object_set_anylen(void) {
+  setloops_scene();
+  g_dst.type_ = VT_OBJECT;
+  _Bool bound = in_bool(), src_bound = in_bool();
+  struct JsonObject o; o.data_ = bound ? &g_dst.content_.asObject : (struct ObjectData *)0; o.resources_ = &g_rm;
+  struct JsonObjectConst src; src.data_ = src_bound ? (struct ObjectData *)ELEM(1000000) : (struct ObjectData *)0; src.resources_ = &g_src_rm;
+  _Bool r = JsonObject__set(&o, src);
+  COVER(bound && src_bound && r && g_N > 100000); COVER(bound && src_bound && !r && g_adds == 3 && g_copies == 3 && !g_ovf0); COVER(bound && src_bound && !r && g_adds == 2 && g_copies == 2 && g_last_member == 0); COVER(!bound || !src_bound); COVER(bound && src_bound && r && g_N == 0);
+  if (!bound || !src_bound) { CHECK(!r && !g_cleared && g_adds == 0, "C04: set() with an unbound destination or source does nothing and returns false"); return; }
+  CHECK(g_cleared, "C04: set(src) clears the destination first (an assignment, not a merge)");
+  CHECK(g_order_ok, "C04: the members are created and filled in the source's order, key then value, each exactly once");
+  CHECK(!g_step_failed || !r, "C05: set() returns false when a member could not be created or its value not copied");
+  if (r) CHECK(g_adds == g_N && g_copies == g_N && !g_step_failed, "C04: on success EVERY member of the source was copied (sources of any length)");
+  else CHECK(g_adds == g_it_pos + 1 && g_copies == g_adds && g_adds <= g_N && (g_step_failed || g_ovf0), "C05: set() stops at the first member whose set() reports failure (an allocation failure, or a document that had already reported one)");
+  if (!g_ovf0) CHECK(r == !g_step_failed, "C05/C04: on a document that reported no failure before, set() returns true exactly when every member was copied");
+}
+#endif /* U_SETLOOPS */
 
 /* =============================================================================================================================
  * unit api_addvalue (modular, class U): ArrayData::addValue<T>(value, resources) for every T the API instantiates, real
@@ -1492,6 +1719,219 @@ void h_object_const_ops(void) {
 #endif /* U_OBJECT */
 
 /* =============================================================================================================================
+ * units api_doc_set, api_strkind (modular, class U): WHICH string storage path a wrapper selects for each SOURCE KIND.
+ * C14: "a string given as a string literal or const char* (kept by address), or as char*, char[], ... JsonString ... (copied)".
+ * The overload is chosen at the user's call site (template deduction on the argument's type), so each source kind is a call in
+ * tu/api.cpp (namespace api, functions sk_*); the obligation runs the lowered call down to the core routine and reads, in the call
+ * log, the ADAPTER the string arrived with:
+ *      ZeroTerminatedRamString  -> VariantData::setString copies it (saveString)        [var_setstring_e2e_cstr/setstring_cstr_copied]
+ *      StaticStringAdapter      -> VariantData::setString keeps the address (setLinkedString) [var_setstring/setstring_linked]
+ *      JsonStringAdapter        -> copies or keeps according to JsonString::isLinked()   [var_setstring_e2e/setstring_jsonstring_*]
+ * and for array elements the addValue instantiation (char*& -> set<char>(char*) -> copy; const char*& -> set<const char> -> address)
+ * [api_addvalue/addvalue_chars, addvalue_cstr; api_ref_variant/set_other]. */
+#ifdef U_STRKIND
+static struct JsonDocument g_doc;
+static RM g_rm;
+static VD g_A, g_up, g_member;
+static char g_buf[8];                 /* the caller's MUTABLE buffer (char[8] / char*) */
+static char g_ctext[4] = {'c', 's', 't', 0}; /* a string the caller promises not to change (const char*) */
+static char g_key[2] = {'k', 0};
+void JsonDocument__clear(struct JsonDocument *self) { log_call(K_docClear, TY_none, self, 0, 0, 0, 0); self->data_.type_ = VT_NULL; self->resources_.overflowed_ = 0; } /* [facade_doc_e2e/doc_clear_dtor] */
+void VariantData__clear__ResourceManager_p(VD *self, RM *resources) { log_call(K_clear, TY_none, self, resources, 0, 0, 0); self->type_ = VT_NULL; }
+static _Bool sk_setstring(VD *self, unsigned ty, const char *str, uint64_t size, _Bool linked, RM *resources) {
+  log_call(K_setString, ty, self, resources, size, str, linked);
+  if (!str) return 0;
+  if (!linked && in_bool()) { core_alloc_failure(resources); return 0; }
+  self->type_ = linked ? VT_LINKED : VT_OWNED;
+  return 1;
+}
+_Bool VariantData__setString_StaticStringAdapter__StaticStringAdapter_ResourceManager_p(VD *self, struct StaticStringAdapter value, RM *resources) { return sk_setstring(self, TY_static, value._b_ZeroTerminatedRamString.str_, 0, 1, resources); }
+_Bool VariantData__setString_ZeroTerminatedRamString__ZeroTerminatedRamString_ResourceManager_p(VD *self, struct ZeroTerminatedRamString value, RM *resources) { return sk_setstring(self, TY_zt, value.str_, 0, 0, resources); }
+#ifdef SK_DOC
+_Bool VariantData__setString_JsonStringAdapter__JsonStringAdapter_ResourceManager_p(VD *self, struct JsonStringAdapter value, RM *resources) { return sk_setstring(self, TY_jsonstring, value._b_SizedRamString.str_, value._b_SizedRamString.size_, value.linked_, resources); }
+#endif
+#ifdef SK_REST
+VD *VariantData__getOrAddMember_StaticStringAdapter(VD *self, struct StaticStringAdapter key, RM *resources) { log_call(K_getOrAddMember, TY_static, self, resources, 0, key._b_ZeroTerminatedRamString.str_, 1); return &g_member; }
+VD *VariantData__getOrAddMember_ZeroTerminatedRamString(VD *self, struct ZeroTerminatedRamString key, RM *resources) { log_call(K_getOrAddMember, TY_zt, self, resources, 0, key.str_, 0); return &g_member; }
+VD *VariantData__getOrAddMember_JsonStringAdapter(VD *self, struct JsonStringAdapter key, RM *resources) { log_call(K_getOrAddMember, TY_jsonstring, self, resources, key._b_SizedRamString.size_, key._b_SizedRamString.str_, key.linked_); return &g_member; }
+VD *VariantData__getOrAddElement(VD *self, unsigned long index, RM *resources) { log_call(K_getOrAddElement, TY_none, self, resources, index, 0, 0); return &g_member; }
+_Bool VariantData__setInteger_int(VD *self, int value, RM *resources) { log_call(K_setInteger, TY_int, self, resources, (uint64_t)value, 0, 0); self->type_ = VT_INT32; return 1; }
+_Bool ArrayData__addValue_char_p_r__char_p_r_ResourceManager_p(struct ArrayData *self, char **value, RM *resources) { log_call(K_addValue, TY_cstr_copied, self, resources, 0, *value, 0); return 1; }
+_Bool ArrayData__addValue_constchar_p_r__char_p_r_ResourceManager_p(struct ArrayData *self, char **value, RM *resources) { log_call(K_addValue, TY_cstr, self, resources, 0, *value, 0); return 1; }
+#endif
+static void sk_scene(void) {
+  log_reset();
+  vd_havoc(&g_A); vd_havoc(&g_up); vd_havoc(&g_member); vd_havoc(&g_doc.data_);
+  g_doc.resources_.overflowed_ = in_bool(); g_rm.overflowed_ = in_bool();
+  for (unsigned i = 0; i < 7; i++) g_buf[i] = in_char();
+  g_buf[7] = 0;
+}
+/* is p the literal "lit" of the call site? */
+static _Bool is_lit(const void *p) { const char *c = (const char *)p; return c != 0 && c[0] == 'l' && c[1] == 'i' && c[2] == 't' && c[3] == 0; }
+
+#ifdef SK_DOC
+/* JsonDocument::set(x): the document is cleared, then x goes to the root through the string routine of its source kind */
+static _Bool doc_set_prefix_ok(void) {
+  VD *root = &g_doc.data_; RM *R = &g_doc.resources_;
+  return g_n == 4 && log_is(0, K_docClear, TY_none, &g_doc, 0, 0, 0, 0) && log_is(1, K_clear, TY_none, root, R, 0, 0, 0) && log_is(2, K_clear, TY_none, root, R, 0, 0, 0) &&
+         g_log[3].k == K_setString && g_log[3].self == root && g_log[3].res == R;
+}
+void h_sk_doc_set_array(void) {
+  sk_scene();
+  _Bool r = api__sk_doc_set_array(&g_doc, &g_buf);          /* char buf[8]; doc.set(buf); */
+  COVER(r); COVER(g_buf[0] == 'x' && g_buf[1] == 0);
+  CHECK(doc_set_prefix_ok(), "C04: doc.set(x) clears the document, then hands x to one string routine on the root, with the document's manager");
+  CHECK(g_log[3].p == (const void *)g_buf, "C14: the string routine receives the caller's buffer");
+#ifdef CANARY_SK_DOC_ARRAY
+  CHECK(g_log[3].ty == TY_zt && g_log[3].b == 0 && g_buf[0] != 'x', "C14: a char[] source is copied (same storage path as char*)");
+#else
+  CHECK(g_log[3].ty == TY_zt && g_log[3].b == 0, "C14: a char[] source is copied (same storage path as char*)");
+#endif
+  CHECK(!g_fail_now || !r, "C05: an allocation failure while storing is reported");
+}
+void h_sk_doc_set_other(void) {
+  sk_scene();
+  unsigned sel = in_u8();
+  __CPROVER_assume(sel < 5);
+  _Bool r = 0, ok = 0;
+  struct JsonString js; js.data_ = g_buf; js.size_ = in_u64(); js.ownership_ = in_u8() & 1; /* 0 Copied, 1 Linked */
+  switch (sel) {
+    case 0: r = api__sk_doc_set_ptr(&g_doc, g_buf); ok = g_log[3].ty == TY_zt && g_log[3].p == (const void *)g_buf && g_log[3].b == 0; break;            /* char* : copied */
+    case 1: r = api__sk_doc_set_cptr(&g_doc, g_ctext); ok = g_log[3].ty == TY_static && g_log[3].p == (const void *)g_ctext && g_log[3].b == 1; break;   /* const char* : kept by address */
+    case 2: r = api__sk_doc_set_literal(&g_doc); ok = g_log[3].ty == TY_static && is_lit(g_log[3].p) && g_log[3].b == 1; break;                          /* literal : kept by address */
+    case 3: js.ownership_ = 0; r = api__sk_doc_set_jsonstring(&g_doc, js); ok = g_log[3].ty == TY_jsonstring && g_log[3].p == (const void *)g_buf && g_log[3].a == js.size_ && g_log[3].b == 0; break; /* JsonString Copied */
+    default: js.ownership_ = 1; r = api__sk_doc_set_jsonstring(&g_doc, js); ok = g_log[3].ty == TY_jsonstring && g_log[3].p == (const void *)g_buf && g_log[3].a == js.size_ && g_log[3].b == 1; break; /* JsonString Linked */
+  }
+  COVER(sel == 0 && r); COVER(sel == 1); COVER(sel == 2 && r); COVER(sel == 3 && !r); COVER(sel == 4);
+  CHECK(doc_set_prefix_ok(), "C04: doc.set(x) clears the document, then hands x to one string routine on the root, with the document's manager");
+#ifdef CANARY_SK_DOC_OTHER
+  CHECK(ok && sel != 1, "C14: char* is copied; const char* and string literals are kept by address; a JsonString is copied or kept as it says (same bytes, same size)");
+#else
+  CHECK(ok, "C14: char* is copied; const char* and string literals are kept by address; a JsonString is copied or kept as it says (same bytes, same size)");
+#endif
+  CHECK(!g_fail_now || !r, "C05: an allocation failure while storing is reported");
+}
+#endif /* SK_DOC */
+
+#ifdef SK_REST
+/* v.set(x), doc[k].set(x), doc[k] = x, doc[i].set(x), doc[i] = x */
+void h_sk_values(void) {
+  sk_scene();
+  unsigned sel = in_u8();
+  __CPROVER_assume(sel < 17);
+  unsigned long idx = in_u64();
+  struct JsonVariant v; v.data_ = &g_A; v.resources_ = &g_rm;
+  unsigned want = TY_none; const void *wp = 0; _Bool lit = 0;
+  unsigned pre = 0; /* lookups before the store */
+  VD *T = &g_member; RM *R = &g_doc.resources_;
+#define WANT_COPY(P) do { want = TY_zt; wp = (P); } while (0)
+#define WANT_LINK(P) do { want = TY_static; wp = (P); } while (0)
+  switch (sel) {
+    case 0: api__sk_variant_set_array(v, &g_buf); WANT_COPY(g_buf); T = &g_A; R = &g_rm; break;
+    case 1: api__sk_variant_set_ptr(v, g_buf); WANT_COPY(g_buf); T = &g_A; R = &g_rm; break;
+    case 2: api__sk_variant_set_cptr(v, g_ctext); WANT_LINK(g_ctext); T = &g_A; R = &g_rm; break;
+    case 3: api__sk_variant_set_literal(v); want = TY_static; lit = 1; T = &g_A; R = &g_rm; break;
+    case 4: api__sk_member_set_array(&g_doc, g_key, &g_buf); WANT_COPY(g_buf); pre = 1; break;
+    case 5: api__sk_member_set_ptr(&g_doc, g_key, g_buf); WANT_COPY(g_buf); pre = 1; break;
+    case 6: api__sk_member_set_cptr(&g_doc, g_key, g_ctext); WANT_LINK(g_ctext); pre = 1; break;
+    case 7: api__sk_member_set_literal(&g_doc, g_key); want = TY_static; lit = 1; pre = 1; break;
+    case 8: api__sk_member_assign_array(&g_doc, g_key, &g_buf); WANT_COPY(g_buf); pre = 1; break;
+    case 9: api__sk_member_assign_ptr(&g_doc, g_key, g_buf); WANT_COPY(g_buf); pre = 1; break;
+    case 10: api__sk_member_assign_cptr(&g_doc, g_key, g_ctext); WANT_LINK(g_ctext); pre = 1; break;
+    case 11: api__sk_member_assign_literal(&g_doc, g_key); want = TY_static; lit = 1; pre = 1; break;
+    case 12: api__sk_element_set_array(&g_doc, idx, &g_buf); WANT_COPY(g_buf); pre = 2; break;
+    case 13: api__sk_element_set_ptr(&g_doc, idx, g_buf); WANT_COPY(g_buf); pre = 2; break;
+    case 14: api__sk_element_set_cptr(&g_doc, idx, g_ctext); WANT_LINK(g_ctext); pre = 2; break;
+    case 15: api__sk_element_assign_array(&g_doc, idx, &g_buf); WANT_COPY(g_buf); pre = 2; break;
+    default: api__sk_element_assign_literal(&g_doc, idx); want = TY_static; lit = 1; pre = 2; break;
+  }
+  unsigned base = pre ? 1 : 0;
+  COVER(sel == 0); COVER(sel == 3); COVER(sel == 8); COVER(sel == 11); COVER(sel == 12); COVER(sel == 16); COVER(sel == 6);
+  if (pre == 1) CHECK(log_is(0, K_getOrAddMember, TY_static, &g_doc.data_, R, 0, g_key, 1), "the member is reached (or created) under the caller's key");
+  if (pre == 2) CHECK(log_is(0, K_getOrAddElement, TY_none, &g_doc.data_, R, idx, 0, 0), "the element is reached (or created) at the caller's index");
+  CHECK(g_n == base + 2 && log_is(base, K_clear, TY_none, T, R, 0, 0, 0) && g_log[base + 1].k == K_setString && g_log[base + 1].self == T && g_log[base + 1].res == R,
+        "C04: the value is cleared and x goes to one string routine on it, nothing else");
+#ifdef CANARY_SK_VALUES
+  CHECK(g_log[base + 1].ty == want && (lit ? is_lit(g_log[base + 1].p) : g_log[base + 1].p == wp) && sel != 9,
+        "C14: set(x) / operator=(x): a char[] or char* source is copied, a const char* or string literal is kept by address (the caller's bytes, unchanged)");
+#else
+  CHECK(g_log[base + 1].ty == want && (lit ? is_lit(g_log[base + 1].p) : g_log[base + 1].p == wp),
+        "C14: set(x) / operator=(x): a char[] or char* source is copied, a const char* or string literal is kept by address (the caller's bytes, unchanged)");
+#endif
+}
+/* arr.add(x), doc.add(x) */
+void h_sk_adds(void) {
+  sk_scene();
+  unsigned sel = in_u8();
+  __CPROVER_assume(sel < 8);
+  g_up.type_ = VT_ARRAY; g_doc.data_.type_ = VT_ARRAY;
+  struct JsonArray a; a.data_ = &g_up.content_.asArray; a.resources_ = &g_rm;
+  unsigned want = TY_none; const void *wp = 0; _Bool lit = 0, r = 0;
+  const void *arr = sel < 4 ? (const void *)&g_up.content_.asArray : (const void *)&g_doc.data_.content_.asArray;
+  RM *R = sel < 4 ? &g_rm : &g_doc.resources_;
+  switch (sel) {
+    case 0: r = api__sk_array_add_array(a, &g_buf); want = TY_cstr_copied; wp = g_buf; break;
+    case 1: r = api__sk_array_add_ptr(a, g_buf); want = TY_cstr_copied; wp = g_buf; break;
+    case 2: r = api__sk_array_add_cptr(a, g_ctext); want = TY_cstr; wp = g_ctext; break;
+    case 3: r = api__sk_array_add_literal(a); want = TY_cstr; lit = 1; break;
+    case 4: r = api__sk_docadd_array(&g_doc, &g_buf); want = TY_cstr_copied; wp = g_buf; break;
+    case 5: r = api__sk_docadd_ptr(&g_doc, g_buf); want = TY_cstr_copied; wp = g_buf; break;
+    case 6: r = api__sk_docadd_cptr(&g_doc, g_ctext); want = TY_cstr; wp = g_ctext; break;
+    default: r = api__sk_docadd_literal(&g_doc); want = TY_cstr; lit = 1; break;
+  }
+  COVER(sel == 0 && r); COVER(sel == 3); COVER(sel == 4); COVER(sel == 7);
+  CHECK(g_n == 1 && g_log[0].k == K_addValue && g_log[0].self == arr && g_log[0].res == R && r, "C04: add(x) hands x to ArrayData::addValue on this array with its manager, once");
+#ifdef CANARY_SK_ADDS
+  CHECK(g_log[0].ty == want && (lit ? is_lit(g_log[0].p) : g_log[0].p == wp) && sel != 5,
+        "C14: add(x): a char[] or char* source takes the copying instantiation (addValue<char*&>), a const char* or string literal the address-keeping one (addValue<const char*&>)");
+#else
+  CHECK(g_log[0].ty == want && (lit ? is_lit(g_log[0].p) : g_log[0].p == wp),
+        "C14: add(x): a char[] or char* source takes the copying instantiation (addValue<char*&>), a const char* or string literal the address-keeping one (addValue<const char*&>)");
+#endif
+}
+/* doc[x], obj[x], variant[x] as the KEY of a member that is created: the key is stored like a value */
+void h_sk_keys(void) {
+  sk_scene();
+  unsigned sel = in_u8();
+  __CPROVER_assume(sel < 14);
+  g_up.type_ = VT_OBJECT;
+  struct JsonObject o; o.data_ = &g_up.content_.asObject; o.resources_ = &g_rm;
+  struct JsonVariant v; v.data_ = &g_A; v.resources_ = &g_rm;
+  struct JsonString js; js.data_ = g_buf; js.size_ = in_u64(); js.ownership_ = in_u8() & 1;
+  unsigned want = TY_none; const void *wp = 0; _Bool lit = 0, r = 0; uint64_t wa = 0, wb = 0;
+  VD *base = sel < 5 ? &g_doc.data_ : sel < 10 ? &g_up : &g_A;
+  RM *R = sel < 5 ? &g_doc.resources_ : &g_rm;
+  switch (sel) {
+    case 0: r = api__sk_dockey_array(&g_doc, &g_buf); want = TY_zt; wp = g_buf; break;
+    case 1: r = api__sk_dockey_ptr(&g_doc, g_buf); want = TY_zt; wp = g_buf; break;
+    case 2: r = api__sk_dockey_cptr(&g_doc, g_ctext); want = TY_static; wp = g_ctext; wb = 1; break;
+    case 3: r = api__sk_dockey_literal(&g_doc); want = TY_static; lit = 1; wb = 1; break;
+    case 4: r = api__sk_dockey_jsonstring(&g_doc, js); want = TY_jsonstring; wp = g_buf; wa = js.size_; wb = js.ownership_ == 1; break;
+    case 5: r = api__sk_objkey_array(o, &g_buf); want = TY_zt; wp = g_buf; break;
+    case 6: r = api__sk_objkey_ptr(o, g_buf); want = TY_zt; wp = g_buf; break;
+    case 7: r = api__sk_objkey_cptr(o, g_ctext); want = TY_static; wp = g_ctext; wb = 1; break;
+    case 8: r = api__sk_objkey_literal(o); want = TY_static; lit = 1; wb = 1; break;
+    case 9: r = api__sk_objkey_jsonstring(o, js); want = TY_jsonstring; wp = g_buf; wa = js.size_; wb = js.ownership_ == 1; break;
+    case 10: r = api__sk_varkey_array(v, &g_buf); want = TY_zt; wp = g_buf; break;
+    case 11: r = api__sk_varkey_ptr(v, g_buf); want = TY_zt; wp = g_buf; break;
+    case 12: r = api__sk_varkey_cptr(v, g_ctext); want = TY_static; wp = g_ctext; wb = 1; break;
+    default: r = api__sk_varkey_literal(v); want = TY_static; lit = 1; wb = 1; break;
+  }
+  COVER(sel == 0 && r); COVER(sel == 4 && wb == 0); COVER(sel == 9 && wb == 1); COVER(sel == 8); COVER(sel == 10); COVER(sel == 13);
+  CHECK(g_n == 3 && g_log[0].k == K_getOrAddMember && g_log[0].self == base && g_log[0].res == R && log_is(1, K_clear, TY_none, &g_member, R, 0, 0, 0) && log_is(2, K_setInteger, TY_int, &g_member, R, 1, 0, 0) && r,
+        "C04: x[key].set(1) creates (or finds) the member of this value under the key, then stores 1 in it");
+#ifdef CANARY_SK_KEYS
+  CHECK(g_log[0].ty == want && (lit ? is_lit(g_log[0].p) : g_log[0].p == wp) && g_log[0].a == wa && g_log[0].b == wb && sel != 6,
+        "C14: a key given as char[] or char* is copied, as const char* or string literal kept by address, as JsonString as it says (same bytes, same size)");
+#else
+  CHECK(g_log[0].ty == want && (lit ? is_lit(g_log[0].p) : g_log[0].p == wp) && g_log[0].a == wa && g_log[0].b == wb,
+        "C14: a key given as char[] or char* is copied, as const char* or string literal kept by address, as JsonString as it says (same bytes, same size)");
+#endif
+}
+#endif /* SK_REST */
+#endif /* U_STRKIND */
+
+/* =============================================================================================================================
  * units api_e2e_* (REAL callees down to the allocator stub of alloc.h; natively replayable): the same entry points on small
  * concrete documents.  They decide the same sentences of the properties on the code that runs, so a counterexample is re-run on
  * the real C++ through the shim.  DefaultAllocator::instance() (a function-local singleton) is a stub returning allocator 3. */
@@ -1500,6 +1940,13 @@ void h_object_const_ops(void) {
 typedef struct JsonDocument Doc;
 #ifndef VERIF_NATIVE
 struct Allocator *DefaultAllocator__instance(void) { return verif_allocator(3); }
+#if defined(E2E_ARRAYSET)
+_Bool VariantRefBase_JsonVariant__set_JsonArrayConst(struct VariantRefBase_JsonVariant *self, struct JsonArrayConst *value) { CHECK(0, "flat scenario: the nested array copy is not reached"); return 0; }
+_Bool VariantRefBase_JsonVariant__set_JsonObjectConst(struct VariantRefBase_JsonVariant *self, struct JsonObjectConst *value) { CHECK(0, "flat scenario: the nested object copy is not reached"); return 0; }
+#endif
+#if defined(E2E_UNSTORED)
+void CollectionData__clear__ResourceManager_p(struct CollectionData *self, RM *resources) { CHECK(0, "scalar scenario: no collection is released slot by slot"); }
+#endif
 #if defined(E2E_SET) || defined(E2E_COPY) || defined(E2E_ADD)
 /* container copies and slot-by-slot releases of collections are outside these scalar scenarios (never reached: CHECKed) */
 _Bool VariantRefBase_JsonVariant__set_JsonArrayConst(struct VariantRefBase_JsonVariant *self, struct JsonArrayConst *value) { CHECK(0, "scalar scenario: the array copy is not reached"); return 0; }
@@ -1520,13 +1967,22 @@ void h_e2e_read_missing(void) {
   static Doc s_d;
   Doc *d = &s_d;
   JsonDocument__ctor__Allocator_p(d, a);
+#ifdef READ_ROOT
+  const unsigned root = READ_ROOT; /* (one scenario per obligation: on a tree that DOES allocate here, the merged paths of all entry points are too large a formula) */
+#else
   unsigned root = in_u8();
+#endif
   __CPROVER_assume(root == VT_NULL || root == VT_OBJECT || root == VT_ARRAY); /* a new document, {} or [] */
   if (root != VT_NULL) set_empty_collection(&d->data_, root);
   VD root0 = d->data_;
+#ifdef READ_SEL
+  const unsigned sel = READ_SEL;
+#else
   unsigned sel = in_u8();
+#endif
   __CPROVER_assume(sel < 9);
   unsigned long idx = in_u8();
+  __CPROVER_assume(idx <= 2);
   long got = 0;
   switch (sel) {
     case 0: got = api__e2e_member_is_object(d, g_k1); break;
@@ -1539,9 +1995,13 @@ void h_e2e_read_missing(void) {
     case 7: got = api__e2e_nested_is_object(d, g_k1, g_k2); break;
     default: got = api__e2e_member_as_int(d, g_k1); break;
   }
+#ifdef READ_SEL
+  COVER(idx == 2); COVER(idx == 0);
+#else
   COVER(sel == 0 && root == VT_NULL); COVER(sel == 2 && root == VT_OBJECT); COVER(sel == 6 && root == VT_ARRAY && idx == 2); COVER(sel == 7 && root == VT_OBJECT); COVER(sel == 4 && root == VT_ARRAY);
+#endif
 #ifdef CANARY_E2E_READ
-  CHECK(g_alloc_calls + g_realloc_calls + g_dealloc_calls == (sel == 3 && root == VT_OBJECT), "C06: read-only operations never call the allocator (is<T>() / as<T>() on a missing member or element)");
+  CHECK(g_alloc_calls + g_realloc_calls + g_dealloc_calls == (idx == 1), "C06: read-only operations never call the allocator (is<T>() / as<T>() on a missing member or element)");
 #else
   CHECK(g_alloc_calls + g_realloc_calls + g_dealloc_calls == 0, "C06: read-only operations never call the allocator (is<T>() / as<T>() on a missing member or element)");
 #endif
@@ -1766,6 +2226,100 @@ void h_e2e_add_failure(void) {
 #endif
   }
   (void)calls0; (void)calls1;
+  JsonDocument__dtor(d);
+  g_expected_allocator = ae;
+  JsonDocument__dtor(e);
+  CHECK(g_live_blocks == 0, "C06: both documents destroyed: no block remains");
+}
+#endif
+
+/* ---- candidate finding (C04): set() of a string / variant / array / object on a reference whose value cannot exist -- an element of
+ *      something that is not an array, a member of something that is not an object, a null key -- returns TRUE although nothing
+ *      was stored (the integer / bool / float overloads return false there).  Exactly one CHECK fails on the unchanged tree. ---- */
+#ifdef E2E_UNSTORED
+void h_e2e_unstored(void) {
+  alloc_reset();
+  struct Allocator *a = verif_allocator(0);
+  g_expected_allocator = a;
+  static Doc s_d;
+  static char txt[3] = {'h', 'i', 0};
+  Doc *d = &s_d;
+  JsonDocument__ctor__Allocator_p(d, a);
+#ifdef UNSTORED_SCEN
+  const unsigned scen = UNSTORED_SCEN; /* (one scenario per obligation: the creating paths of all entry points merged are too large a formula) */
+#else
+  unsigned scen = in_u8();
+#endif
+  __CPROVER_assume(scen < 4);
+  _Bool r = 0;
+  /* 0: {}[0].set("hi")   1: []["a"].set("hi")   2: null document, doc[(const char*)0].set("hi")   3: {}[0].set(7) */
+  if (scen == 0 || scen == 3) set_empty_collection(&d->data_, VT_OBJECT);
+  if (scen == 1) set_empty_collection(&d->data_, VT_ARRAY);
+  VD root0 = d->data_;
+  if (scen == 0) r = api__e2e_element_set_cstr(d, 0, txt);
+  else if (scen == 1) r = api__e2e_member_set_cstr(d, g_k1, txt);
+  else if (scen == 2) r = api__e2e_member_set_cstr(d, (char *)0, txt);
+  else r = api__e2e_element_set_int(d, 0, 7);
+  COVER(scen < 4);
+  CHECK(vd_same(&d->data_, &root0) && g_alloc_calls == 0 && !d->resources_.overflowed_, "C04: a value of another kind is never clobbered: the document is unchanged, nothing was requested, nothing is reported");
+#ifdef CANARY_E2E_UNSTORED
+  CHECK(!r && scen > 3, "C04: set() returns true only if the value was stored (here no element / member can exist, nothing was stored)");
+#else
+  CHECK(!r, "C04: set() returns true only if the value was stored (here no element / member can exist, nothing was stored)");
+#endif
+  JsonDocument__dtor(d);
+}
+#endif
+
+/* ---- C04 "JsonArray::set(src): afterwards the target equals a copy of src" with the REAL callees (clear, iteration, add, copy):
+ *      destination with one element, source (another document) with <= 1 element (class B shapes) ------------------------------- */
+#ifdef E2E_ARRAYSET
+void h_e2e_array_set(void) {
+  alloc_reset();
+  g_expected_allocator = 0;
+  struct Allocator *ad = verif_allocator(0), *ae = verif_allocator(1);
+  static Doc s_d, s_e;
+  Doc *d = &s_d, *e = &s_e;
+  JsonDocument__ctor__Allocator_p(d, ad);
+  JsonDocument__ctor__Allocator_p(e, ae);
+  set_empty_collection(&d->data_, VT_ARRAY);
+  set_empty_collection(&e->data_, VT_ARRAY);
+  struct JsonArray dst; dst.data_ = &d->data_.content_.asArray; dst.resources_ = &d->resources_;
+  struct JsonArray srcw; srcw.data_ = &e->data_.content_.asArray; srcw.resources_ = &e->resources_;
+  struct JsonArrayConst src; src.data_ = srcw.data_; src.resources_ = srcw.resources_;
+#ifdef ARRAYSET_N
+  const unsigned n = ARRAYSET_N;
+#else
+  unsigned n = in_u8();
+#endif
+  __CPROVER_assume(n <= 1);
+  int v = (int)in_u32();
+  g_alloc_may_fail = 0;                 /* both arrays are built without faults */
+  _Bool okb = api__e2e_array_add_int(dst, 99);
+  if (n == 1) okb = okb && api__e2e_array_add_int(srcw, v);
+  __CPROVER_assume(okb);
+  g_alloc_may_fail = 1;
+  g_expected_allocator = ad;
+  unsigned fails0 = g_alloc_failures;
+  _Bool r = api__e2e_array_set(dst, src);
+  COVER(r); COVER(v == 7);
+  CHECK(r == (g_alloc_failures == fails0), "C05: set() returns false exactly when an allocation failed");
+  /* the destination now holds exactly the source's elements (all of them on success, none of its own former ones) */
+  slotid_t h = d->data_.content_.asCollection.head_;
+  if (r) {
+    if (n == 0) CHECK(h == NSLOT && d->data_.content_.asCollection.tail_ == NSLOT, "C04: set() from an empty array leaves the destination empty (an assignment, not an append)");
+    else {
+      VD *x = h == NSLOT ? (VD *)0 : ResourceManager__getVariant(&d->resources_, h);
+#ifdef CANARY_E2E_ARRAYSET
+      CHECK(x != 0 && x->type_ == VT_INT32 && x->content_.asInt32 == v && x->next_ == NSLOT && d->data_.content_.asCollection.tail_ == h && v != 5,
+            "C04: after set() the destination holds exactly the source's elements, in order (its former elements are gone)");
+#else
+      CHECK(x != 0 && x->type_ == VT_INT32 && x->content_.asInt32 == v && x->next_ == NSLOT && d->data_.content_.asCollection.tail_ == h,
+            "C04: after set() the destination holds exactly the source's elements, in order (its former elements are gone)");
+#endif
+    }
+  }
+  CHECK(d->data_.type_ == VT_ARRAY && e->data_.type_ == VT_ARRAY, "the destination stays an array; the source is untouched");
   JsonDocument__dtor(d);
   g_expected_allocator = ae;
   JsonDocument__dtor(e);
